@@ -225,6 +225,7 @@ class Recorder:
         self.tlabel = {}
         self.trades = collections.OrderedDict()
         self.trans = []  # status transitions since last step
+        self.ttrans = []  # trade status transitions since last step [trade, from, to]
         self.reqs = []  # strategy requests since last step
         self.pkgs = []  # packages handed to process_order_package since last step
         self.errors = []
@@ -552,8 +553,9 @@ class Recorder:
                 "update": int(round(fconfig.update_latency * 1000)), "replace": int(round(fconfig.replace_latency * 1000))}
 
     def step(self, ev, **args):
-        rec = {"ev": ev, "a": args, "trans": self.trans, "reqs": self.reqs, "pkgs": self.pkgs, "txcalls": self.txcalls, "txs": self.tx_now()}
+        rec = {"ev": ev, "a": args, "trans": self.trans, "reqs": self.reqs, "pkgs": self.pkgs, "txcalls": self.txcalls, "txs": self.tx_now(), "ttrans": self.ttrans}
         self.txcalls = []
+        self.ttrans = []
         if ev == "cb":
             rec["lat"] = self.lat()
         if ev in ("upd", "end") and self.snapshots and self.flumine is not None:
@@ -959,6 +961,15 @@ def instrument(rec, patches):
 
     patches.wrap(BaseOrder, "_update_status", mk_update_status)
 
+    def mk_trade_status(orig):
+        def _update_status(self, status):
+            prev = self.status
+            orig(self, status)
+            rec.ttrans.append([rec.label_trade(self), TSTATUS_NAME.get(prev, str(prev)), TSTATUS_NAME.get(status, str(status))])
+        return _update_status
+
+    patches.wrap(Trade, "_update_status", mk_trade_status)
+
     from flumine.controls.clientcontrols import MaxTransactionCount
 
     def hour_index(dt):
@@ -1347,6 +1358,8 @@ def run_scenario(scn, keep_dir=None, snapshots=True, extra_setup=None):
     cfg.update(scn.get("cfg", {}))
     rec = Recorder(scn)
     rec.snapshots = snapshots
+    if os.environ.get("VERIF_WORK"):
+        os.makedirs(os.environ["VERIF_WORK"], exist_ok=True)
     workdir = keep_dir or tempfile.mkdtemp(prefix="verif_sim_", dir=os.environ.get("VERIF_WORK", None))
     os.makedirs(workdir, exist_ok=True)
     global T0
